@@ -97,6 +97,15 @@ def run(ctx: vlib.Ctx):
         "family 'latename' puts a reference back to the class under construction (Self, its own name, a mutually recursive class) inside every "
         "construct that is compiled as a separate helper function (non-Optional unions, containers of unions, constrained TypeVars, discriminated "
         "unions, literals next to unions, nested holders) x mixin / codec (not nailed) / both x module / function scope, and demands an exact round trip; "
+        "family 'multimod' spreads a schema over several user packages: same-named classes (incl. names living in the builder's namespace: Field, "
+        "Alias, Dialect, Sentinel, ...) in different modules as fields of one holder; a generic base with a bare / wrapped TypeVar field whose "
+        "argument comes from a foreign top-level package mentioned nowhere else; SerializableType / SerializationStrategy with use_annotations whose "
+        "string annotations name user classes bare or through user module objects called types / enum / typing / math / ... ; x import style x "
+        "mixin / codec; every such schema must build, round-trip exactly and bind the annotated classes; "
+        "family 'defaults' gives omit_default classes (Config / Config.dialect / call-time dialect / codec default_dialect) default values the "
+        "generated text has to mention: tuples, 1-tuples, nested, variable and optional tuples holding Paths, IP addresses, UUID, Decimal, Fraction, "
+        "dates, Enum and Flag members, arbitrary objects, named tuples, dataclass instances, frozensets, lists, dicts, NaN, via default and "
+        "default_factory, mixin and codec, module and function scope (exact round trip demanded); "
         "family 'identity' instantiates the adversarial shapes the property names (same-qualname local classes, clean_id collisions, functional "
         "Enum/NamedTuple/make_dataclass in a function, bogus __module__, re-bound names, MappingProxyType, defaultdict of a local class, class and "
         "module names shadowing names used by generated code) x class kind x position x entry point. Every schema is built under capture, every "
@@ -141,18 +150,20 @@ def run(ctx: vlib.Ctx):
 
     # ---- 2+3. run the schemas in worker processes
     thorough = not ctx.quick()
-    n_grammar = ctx.budget(200, 2600)
-    n_ident = ctx.budget(60, 400)
+    n_grammar = ctx.budget(170, 2600)
+    n_ident = ctx.budget(50, 400)
     jobs = 4 if ctx.quick() else 12
     res_g, skip_g = run_family(ctx, "grammar", n_grammar, ctx.budget(24, 40), jobs, ctx.budget(10, 25), 8.0)
     res_i, skip_i = run_family(ctx, "identity", n_ident, ctx.budget(12, 20), jobs, ctx.budget(10, 20), 8.0)
-    res_l, skip_l = run_family(ctx, "latename", ctx.budget(70, 600), ctx.budget(12, 20), jobs, ctx.budget(10, 25), 8.0)
-    skip_i = skip_i + skip_l
+    res_l, skip_l = run_family(ctx, "latename", ctx.budget(60, 600), ctx.budget(12, 20), jobs, ctx.budget(10, 25), 8.0)
+    res_m, skip_m = run_family(ctx, "multimod", ctx.budget(60, 600), ctx.budget(10, 16), jobs, ctx.budget(10, 25), 8.0)
+    res_d, skip_d = run_family(ctx, "defaults", ctx.budget(40, 400), ctx.budget(10, 16), jobs, ctx.budget(10, 25), 8.0)
+    skip_i = skip_i + skip_l + skip_d + skip_m
     if skip_g or skip_i:
         ctx.notes.append(f"schemas skipped because a call did not return in time (library loops on some inputs; not a C17 matter): grammar {skip_g}, identity {skip_i}")
     ctx.hist("schemas", "skipped-timeout", len(skip_g) + len(skip_i))
 
-    all_res = [("grammar", r) for r in res_g] + [("identity", r) for r in res_i] + [("latename", r) for r in res_l]
+    all_res = [("grammar", r) for r in res_g] + [("identity", r) for r in res_i] + [("latename", r) for r in res_l] + [("defaults", r) for r in res_d] + [("multimod", r) for r in res_m]
     reach = sum(r.get("reachable", 0) for _, r in all_res)
     unknown = sum(r.get("unknown_fns", 0) for _, r in all_res)
     ctx.hist("functions", "reachable-from-entry-points(checked against fn.__globals__)", reach)
@@ -210,7 +221,7 @@ def schema_source(seed: int, family: str, idx: int) -> dict:
 def report_failure(ctx, fam, r, f):
     s = schema_source(ctx.seed, fam, r["idx"])
     replay = {"entry": "c17-schema", "family": fam, "schema_idx": r["idx"], "schema_seed": ctx.seed, "schema_module": s["module"],
-              "schema_src": s["src"], "finding_kind": f["kind"], "finding_name": f.get("name"), "call": f.get("entry"), "input": f.get("input"),
+              "schema_src": s["src"], "schema_aux": s.get("aux", []), "must_build": s.get("must_build", False), "finding_kind": f["kind"], "finding_name": f.get("name"), "call": f.get("entry"), "input": f.get("input"),
               "observed": f["what"], "expected": "no NameError/AttributeError/SyntaxError of the library's own making; decoded objects are instances of the annotated class",
               "program": f.get("program")}
     ctx.fail(f"{f['kind']}: {f['what'][:200]} [schema {fam}/{r['idx']}, {r['defloc']}]", replay, f["signature"])
@@ -343,7 +354,8 @@ def replay(rep: dict) -> int:
         print("unknown replay kind")
         return 2
     c17_run.install_capture()
-    schema = {"src": rep["schema_src"], "module": rep["schema_module"], "tags": [], "defloc": "replay", "idx": rep.get("schema_idx", 0)}
+    schema = {"src": rep["schema_src"], "module": rep["schema_module"], "tags": [], "defloc": "replay", "idx": rep.get("schema_idx", 0),
+              "aux": rep.get("schema_aux", []), "must_build": rep.get("must_build", False)}
     rng = random.Random(f"c17-run-{rep.get('schema_seed', 0)}-{rep.get('family')}-{rep.get('schema_idx')}")
     sr = c17_run.run_schema(schema, rng, 40)
     d = sr.module.__dict__ if sr.module is not None else {}
@@ -351,7 +363,7 @@ def replay(rep: dict) -> int:
     hit = None
     for f in sr.findings:
         sig = c17_run.classify(f, d, schema["module"], schema["src"])
-        if f["kind"] == rep.get("finding_kind") and (rep.get("finding_name") in (None, f.get("name")) or sig == want):
+        if f["kind"] == rep.get("finding_kind") and (all(sig.get(k) == v for k, v in want.items()) if want else rep.get("finding_name") in (None, f.get("name"))):
             hit = f
             break
     if hit is None:
